@@ -40,6 +40,7 @@ type binScenario struct {
 	ReadOnly bool
 	Holder   bool   // a competing process holds the lock of f1 (-> lock timeout path)
 	Out      string // --out file name
+	Preload  string // contents of $HOME/.csvqrc (statements run before the command line is applied; cwd = parent of repo)
 }
 
 type pointRec struct {
@@ -92,6 +93,9 @@ func runScenario(r *core.Run, sc binScenario, env []string, keep bool) (dir stri
 	_ = os.MkdirAll(repo, 0755)
 	writeTables(repo, sc.Tables)
 	tracef := filepath.Join(dir, "trace.ndjson")
+	if sc.Preload != "" {
+		_ = os.WriteFile(filepath.Join(dir, ".csvqrc"), []byte(sc.Preload), 0644)
+	}
 	sqlf := filepath.Join(dir, "prog.sql")
 	_ = os.WriteFile(sqlf, []byte(sc.SQL), 0644)
 	args := []string{"--repository", repo, "--format", "JSON", "--wait-timeout", "0.3", "--quiet"}
@@ -265,6 +269,9 @@ func crashScenarios(thorough bool) []binScenario {
 			Prog: []sched.Op{{Op: "update", F: "f1"}, {Op: "commit", F: "-"}, {Op: "update", F: "f1"}, {Op: "commit", F: "-"}}},
 		{Name: "empty", Tables: map[string]string{"f1.csv": "n\n"}, SQL: "INSERT INTO `f1.csv` VALUES (1);\nCOMMIT;\n",
 			Prog: []sched.Op{{Op: "update", F: "f1"}, {Op: "commit", F: "-"}}},
+		// a table file of 0 bytes that receives more than one output buffer of rows (from a 700-row table)
+		{Name: "zerobytes", Tables: map[string]string{"f1.csv": "", "f2.csv": rowsCSV(700, 1234567)},
+			SQL: "ALTER TABLE `f1.csv` ADD (n);\nINSERT INTO `f1.csv` SELECT n FROM `f2.csv`;\nCOMMIT;\n"},
 	}
 	return l
 }
@@ -295,7 +302,7 @@ func runC10(r *core.Run) {
 		newC := sut.Snapshot(filepath.Join(dir, "repo"))
 		_ = os.RemoveAll(dir)
 		for n, c := range sc.Tables {
-			if newC[n] == c {
+			if newC[n] == c && sc.Prog != nil {
 				core.Fail("scenario %s does not change %s", sc.Name, n)
 			}
 		}
@@ -327,7 +334,7 @@ func runC10(r *core.Run) {
 				if !ok {
 					c = versions[n][len(versions[n])-1]
 				}
-				if sc.Tables[n] == "" && len(versions[n]) == 1 && ok {
+				if _, existed := sc.Tables[n]; !existed && len(versions[n]) == 1 && ok {
 					// a created table: version 0 is its first committed contents
 					versions[n][0] = c
 					continue
@@ -360,10 +367,12 @@ func runC10(r *core.Run) {
 			}
 			ids = append(ids, p.ID)
 		}
-		ref := binTrace(sc, points, "", nil)
-		traceLines = append(traceLines, ref...)
-		traceLines = append(traceLines, core.JSON(map[string]interface{}{"a": "end", "dir": dirProjection2(newC, files, versions)}))
-		ntr++
+		if sc.Prog != nil { // scenarios outside the vocabulary of FileProtocol are judged by the oracle only
+			ref := binTrace(sc, points, "", nil)
+			traceLines = append(traceLines, ref...)
+			traceLines = append(traceLines, core.JSON(map[string]interface{}{"a": "end", "dir": dirProjection2(newC, files, versions)}))
+			ntr++
+		}
 		type outc struct {
 			id   string
 			what string
@@ -427,8 +436,10 @@ func runC10(r *core.Run) {
 			if o.sig != "" {
 				r.Violation(o.sig, o.what, map[string]interface{}{"scenario": sc.Name, "sql": sc.SQL, "crash_at": o.id})
 			}
-			traceLines = append(traceLines, o.tr...)
-			ntr++
+			if sc.Prog != nil {
+				traceLines = append(traceLines, o.tr...)
+				ntr++
+			}
 		}
 		r.Sample(map[string]interface{}{"scenario": sc.Name, "sql": sc.SQL, "crash_points": len(ids), "first_points": ids[:minInt(8, len(ids))]})
 	}
